@@ -103,7 +103,11 @@ def apply_replacement(d, file, old, new):
 
 def record_result(mid, own, caught):
     """Keep the latest outcome per change in selftest/results.json (committed, informative)."""
+    import fcntl
+
     p = os.path.join(env.VERIF_HOME, "selftest", "results.json")
+    lock = open(p + ".lock", "w")
+    fcntl.flock(lock, fcntl.LOCK_EX)  # several evaluation streams may run side by side
     try:
         data = json.load(open(p))
     except Exception:
@@ -117,6 +121,8 @@ def record_result(mid, own, caught):
     with open(p + ".tmp", "w") as f:
         json.dump(data, f, indent=1, sort_keys=True)
     os.replace(p + ".tmp", p)
+    fcntl.flock(lock, fcntl.LOCK_UN)
+    lock.close()
 
 
 def main(arg=None):
